@@ -23,7 +23,7 @@ def ensure_wt():
     head = sh("git -C /repo rev-parse HEAD").stdout.strip()
     if not (WT / ".git").exists():
         sh(f"git -C /repo worktree add --detach {WT} HEAD")
-    sh(f"git -C {WT} checkout -q -- . && git -C {WT} checkout -q --detach {head}")
+    sh(f"git -C {WT} reset -q --hard && git -C {WT} checkout -q --detach {head}")
     if not (WT / "_build" / "build.ninja").exists():
         sh(f"cmake -G Ninja -S {WT} -B {WT}/_build -DCMAKE_BUILD_TYPE=RelWithDebInfo")
     return head
@@ -144,6 +144,8 @@ def main():
     ap = sh(f"git -C {WT} apply {src}/patch.diff")
     if ap.returncode != 0:
         ap = sh(f"git -C {WT} apply --3way {src}/patch.diff")
+        if ap.returncode != 0:
+            sh(f"git -C {WT} reset -q --hard")
     rec["patch_applies"] = ap.returncode == 0
     if rec["patch_applies"]:
         rec["tests_pass_with_patch"], rec["tests_tail"] = build_and_test()
